@@ -589,6 +589,185 @@ def q4(run, project):
                module=mod, node=sa[0] if sa else mod.tree, func="<module>", construct="show_attributes")
 
 
+def q5(run, project):
+    """the list folder's mode is decided by the element type: the elements of a byte list (element type BYTE) are collected
+    into the one row of their parent, the elements of every other list get a row each; an element belongs to the list when it
+    has the parent's path up to an index.  Stated over the path summaries of pretty_list_elems (which of the two modes a path
+    runs in, under which outcome of the element-type test) and the body of the membership test."""
+    mod = project.module(PRETTY)
+    ple = mod.functions().get("pretty_list_elems")
+    parent, gen = ple.args.args[0].arg, ple.args.args[1].arg
+    S = paths.Summariser(mod, ple)
+    ps = [p for p in S.paths() if p.end != "raise"]
+
+    def subs_of(p):
+        """[(sub-path of a pulling loop, event variable)]"""
+        out = []
+        for lid, lp in p.loops.items():
+            lnode = next((n_ for k, _e, n_ in p.effects if k == "loop" and id(n_) == lid), None)
+            tv = lnode.target.id if isinstance(lnode, ast.For) and isinstance(lnode.target, ast.Name) and norm(lnode.iter) == gen else None
+            for b in lp:
+                ev = [norm(e.targets[0]) for k, e, _n in b.effects if k == "bind" and isinstance(e, ast.Assign) and isinstance(e.value, ast.Call)
+                      and call_name(e.value) == "next"]
+                if ev or tv:
+                    out.append((b, ev[0] if ev else tv))
+        return out
+    all_atoms = {a for p in ps for a, _v, _ in p.cond} | {a for p in ps for b, _ in subs_of(p) for a, _v, _ in b.cond}
+    byte_atoms = all_atoms & {f"{parent}.type.__args__[0] is BYTE", f"{parent}.type.__args__[0] == BYTE", f"{parent}.type == list[BYTE]",
+                              f"{parent}.type is list[BYTE]"}
+    if len(byte_atoms) != 1:
+        raise AnalysisError(f"Q5: the element-type test of pretty_list_elems was not found among {sorted(all_atoms)[:8]}")
+    BA = byte_atoms.pop()
+    n = 0
+    for p in ps:
+        lab = " & ".join(("" if v else "not ") + a for a, v, _ in p.cond if not a.startswith(("loop@", "try@"))) or "always"
+        il = p.truth(f"is_list({parent}.type)")
+        pt = p.truth(BA)
+        prow = [paths.text(e) for k, e, _n in p.effects if k == "yield" and call_name(e) == "format"]
+        seen_sub = set()
+        for sub, v in subs_of(p):
+            if sub.truth(f"isinstance({v}, MarshalEvent)") is not True or sub.end not in ("fall", "continue"):
+                continue   # (an element of the list is an event after which the folder goes on pulling)
+            t = sub.truth(BA) if sub.truth(BA) is not None else pt
+            rows = [paths.text(e) for k, e, _n in sub.effects if k == "yieldfrom" and call_name(e) == "pretty"]
+            enc = (f"{v}.value.to_bytes()", f"to_bytes({v})")   # (to_bytes(event) is event.value.to_bytes() for a list element: C02-B2)
+            folded = [k_ for k_, e_ in sub.env.items() if isinstance(e_, ast.AST) and any(x in paths.text(e_) for x in enc)] + \
+                [1 for k, e, _n in sub.effects if k == "update" and any(x in paths.text(e) for x in enc)]
+            got = "elements" if rows == [f"pretty({v})"] and not folded else "bytes" if folded and not rows else f"rows {rows}, folded into {folded}"
+            key = (t, got)
+            if key in seen_sub:
+                continue
+            seen_sub.add(key)
+            sl = " & ".join(("" if v_ else "not ") + a for a, v_, _ in sub.cond if not a.startswith(("loop@", "try@")))
+            n += 1
+            if t is None and il is not False:
+                run.ob("Q5", False, f"pretty_list_elems [{lab[:60]}] element [{sl[:60]}]", f"on the path [{lab}], element step [{sl}], the list "
+                       f"folder treats the element as `{got}` without having tested the element type (`{BA}`): byte buffers and other lists are "
+                       "treated alike", module=mod, node=sub.node or ple, func="pretty_list_elems", construct="list folding mode")
+                continue
+            want = "bytes" if t and il is not False else "elements"
+            run.ob("Q5", got == want, f"pretty_list_elems [{lab[:60]}] element [{sl[:60]}]: {want}",
+                   f"on the path [{lab}], element step [{sl}], the list folder treats the elements as `{got}`; a list whose element type "
+                   f"{'is' if want == 'bytes' else 'is not'} BYTE must be shown as `{want}` ("
+                   + ("one row holding all its bytes" if want == "bytes" else "one row per element") + ")", module=mod, node=sub.node or ple,
+                   func="pretty_list_elems", construct="list folding mode")
+        # the collected row: exactly once for a byte list, never otherwise
+        if pt is not None or il is False:
+            wantrow = bool(pt) and il is not False
+            okrow = (len(prow) == 1 and prow[0].startswith(f"format({parent}.type, {parent}.path, ")) if wantrow else not prow
+            n += 1
+            run.ob("Q5", okrow, f"pretty_list_elems [{lab[:80]}]: {'one collected row' if wantrow else 'no collected row'}",
+                   f"on the path [{lab}] the list folder emits the collected rows {prow}; a list whose element type "
+                   f"{'is' if wantrow else 'is not'} BYTE gets {'exactly one row built from the parent and the collected bytes' if wantrow else 'none'}",
+                   module=mod, node=p.node or ple, func="pretty_list_elems", construct="list folding row")
+        elif prow:
+            n += 1
+            run.ob("Q5", False, f"pretty_list_elems [{lab[:80]}]: collected row", f"on the path [{lab}] a collected row {prow} is emitted without "
+                   f"the element type (`{BA}`) having been tested", module=mod, node=p.node or ple, func="pretty_list_elems",
+                   construct="list folding row")
+    run.require(n >= 3, f"Q5: only {n} obligations on pretty_list_elems")
+    # the folder reads the elements: every completing path runs a pulling loop
+    for p in ps:
+        if not subs_of(p):
+            lab = " & ".join(("" if v else "not ") + a for a, v, _ in p.cond if not a.startswith(("loop@", "try@"))) or "always"
+            run.ob("Q5", False, f"pretty_list_elems [{lab[:80]}] pulls the elements", f"on the path [{lab}] the list folder returns without "
+                   "pulling from the event stream (its loop never runs): the elements stay unread, and a None result ends the printing",
+                   module=mod, node=p.node or ple, func="pretty_list_elems", construct="list folding loop")
+    # the parent of an element-wise list gets its own row exactly when no element was shown (flag idiom: a boolean local that
+    # starts true, is cleared where an element row is emitted and is tested where the folder leaves)
+    parent_row = f"pretty({parent})"
+    exits = []   # (path-ish, label) where the folder leaves in elements mode
+    for p in ps:
+        if p.truth(BA) is True:
+            continue
+        for sub, v in subs_of(p):
+            if sub.end in ("return", "break") and sub.truth(BA) is not True:
+                exits.append(sub)
+    flags = {a[7:] for e_ in exits for a, _v, _ in e_.cond if a.startswith("truthy ")}
+    inits = {norm(a_.targets[0]): a_.value.value for a_ in ple.body if isinstance(a_, ast.Assign) and isinstance(a_.value, ast.Constant)
+             and isinstance(a_.value.value, bool)}
+    flags = (flags & set(inits)) or (set(inits) if len(inits) == 1 else set())
+    if len(flags) == 1:
+        F = flags.pop()
+        run.ob("Q5", inits[F] is True, f"`{F}` starts true (no element shown yet)", f"`{F}` starts as {inits[F]}", module=mod, node=ple,
+               func="pretty_list_elems", construct="empty-list flag")
+        for p in ps:
+            for sub, v in subs_of(p):
+                t = sub.truth(BA) if sub.truth(BA) is not None else p.truth(BA)
+                if t is True:
+                    continue
+                shows = [1 for k, e, _n in sub.effects if k == "yieldfrom" and paths.text(e) == f"pretty({v})"]
+                member_ = sub.truth(f"isinstance({v}, MarshalEvent)") is True and sub.end in ("fall", "continue")
+                sl = " & ".join(("" if v_ else "not ") + a for a, v_, _ in sub.cond if not a.startswith(("loop@", "try@")))
+                if member_ and shows:
+                    fv = sub.env.get(F)
+                    run.ob("Q5", isinstance(fv, ast.Constant) and fv.value is False, f"element step [{sl[:70]}] clears `{F}`",
+                           f"on the element step [{sl}] an element row is emitted but `{F}` is not cleared: the parent of a non-empty "
+                           "list is shown as well (a row for an event that is represented by its elements)", module=mod, node=sub.node or ple,
+                           func="pretty_list_elems", construct="empty-list flag")
+                if sub.end in ("return", "break") and sub.truth(f"truthy {F}") is not None:
+                    has = [1 for k, e, _n in sub.effects if k == "yieldfrom" and paths.text(e) == parent_row]
+                    run.ob("Q5", bool(has) == sub.truth(f"truthy {F}"), f"leaving step [{sl[:70]}]: parent row iff no element was shown",
+                           f"on the leaving step [{sl}] the parent's own row is {'emitted' if has else 'not emitted'} although `{F}` is "
+                           f"{sub.truth(f'truthy {F}')}", module=mod, node=sub.node or ple, func="pretty_list_elems", construct="empty-list row")
+    else:
+        run.info("Q5: the empty-list flag idiom was not recognised in pretty_list_elems; the parent-row rule is not applied to this form")
+    # membership: same path up to the index.  The test is whatever distinguishes "an element of this list" on the element paths
+    # above: a helper called with (parent, event), or the comparisons themselves.
+    member = set()
+    evname = None
+    for p in ps:
+        for sub, ev0 in subs_of(p):
+            if sub.truth(f"isinstance({ev0}, MarshalEvent)") is not True or sub.end not in ("fall", "continue"):
+                continue
+            evname = ev0
+            member.add(frozenset((a, v) for a, v, _ in sub.cond if not a.startswith(("isinstance(", "truthy ", "try@", "loop@")) and a != BA))
+    if not member or not evname:
+        raise AnalysisError("Q5: the membership test of the list folder was not found")
+    if len(member) > 1:
+        run.ob("Q5", False, "one membership test for both kinds of list", f"the events the folder keeps pulling after (= takes for elements "
+               f"of the list) are selected differently on different paths: {sorted(map(sorted, member))}", module=mod, node=ple,
+               func="pretty_list_elems", construct="list membership")
+        return
+    atoms = sorted(member.pop())
+    cmps, node_, fname = None, ple, "pretty_list_elems"
+    if len(atoms) == 1 and atoms[0][1] is True:
+        c0 = ast.parse(atoms[0][0], mode="eval").body
+        if isinstance(c0, ast.Call) and isinstance(c0.func, ast.Name) and len(c0.args) == 2:
+            ic = next((f_ for f_ in ast.walk(ple) if isinstance(f_, ast.FunctionDef) and f_.name == c0.func.id), None) or mod.functions().get(c0.func.id)
+            if ic is None:
+                raise AnalysisError(f"Q5: the membership test {c0.func.id} was not found")
+            rets = [r for r in ast.walk(ic) if isinstance(r, ast.Return)]
+            e = rets[0].value if len(rets) == 1 else None
+            if not (isinstance(e, ast.BoolOp) and all(isinstance(c, ast.Compare) and len(c.ops) == 1 for c in e.values)):
+                raise AnalysisError(f"Q5: {c0.func.id} is no longer a combination of comparisons of the two paths")
+            ren = {x.arg: norm(a_) for x, a_ in zip(ic.args.args, c0.args)}
+
+            class _R(ast.NodeTransformer):
+                def visit_Name(self, n_):
+                    return ast.copy_location(ast.parse(ren[n_.id], mode="eval").body, n_) if n_.id in ren else n_
+            e = _R().visit(paths.clone(e))
+            cmps = [(c, True) for c in e.values] if isinstance(e.op, ast.And) else [(e, True)]
+            node_, fname = ic, ic.name
+    if cmps is None:
+        cmps = [(ast.parse(a, mode="eval").body, v) for a, v in atoms]
+
+    def side(c, truth):
+        if not (isinstance(c, ast.Compare) and len(c.ops) == 1):
+            return (norm(c), str(truth))
+        op = type(c.ops[0]).__name__
+        if not truth:
+            op = {"Eq": "NotEq", "NotEq": "Eq"}.get(op, "not " + op)
+        return tuple(sorted((norm(c.left), norm(c.comparators[0])))) + (op,)
+    got = {side(c, v) for c, v in cmps}
+    a, b = parent, evname
+    want = {tuple(sorted((f"{a}.path[:-1]", f"{b}.path[:-1]"))) + ("Eq",), tuple(sorted((f"{a}.path[-1].name", f"{b}.path[-1].name"))) + ("Eq",)}
+    run.ob("Q5", got == want, "a list element has the parent's path up to the index",
+           f"an event counts as an element of the list when {sorted(got)}: membership in the list is no longer `same enclosing path and "
+           "same field name` - rows of other fields are swallowed into the list or elements are left out", module=mod, node=node_, func=fname,
+           construct="list membership")
+
+
 def check(run, project):
     L = ctx.layout(project)
     run.explanation = ("must-dataflow of `isinstance(_, MarshalEvent)` knowledge over the CFGs of both printers (Q1), typestate "
@@ -597,5 +776,8 @@ def check(run, project):
     q2(run, project)
     q3(run, L)
     q4(run, project)
+    q5(run, project)
+    from .shared import unbound_locals
+    unbound_locals(run, project, "Q6", (PRETTY, EVENTS, "tpmstream.io.binary.unmarshal"), what="the printer fails instead of printing")
     run.floor("Q1", 15)
     run.floor("Q3", 60)
